@@ -100,6 +100,12 @@ func infoFromCell(cell *hrpc.Cell) (hrpc.RegionInfo, error) {
 	if regInfo.GetOffline() {
 		return nil, OfflineRegionError{n: string(cell.Row)}
 	}
+	// the row key is the region's name, table,startkey,id: region names
+	// are compared (see Compare) on the assumption that they have that shape
+	if first := bytes.IndexByte(cell.Row, ','); first < 0 ||
+		first == bytes.LastIndexByte(cell.Row, ',') {
+		return nil, fmt.Errorf("invalid region name in %q", cell)
+	}
 	var namespace []byte
 	if !bytes.Equal(regInfo.TableName.Namespace, defaultNamespace) {
 		// if default namespace, pretend there's no namespace
